@@ -56,11 +56,11 @@ def rich_file(path, includes=(), ns=None):
         ]},
         {"k": "struct", "name": n("T"), "fields": [
             idl.F(1, "default", T(n("S")), "s", {"m": [[S("a"), I(1)], [S("b"), S("x")]]}),
-            idl.F(2, "optional", T("map<string,%s>" % n("Int")), "m"),
+            idl.F(-1, "optional", T("map<string,%s>" % n("Int")), "m"),     # a non-positive id (accepted, warned about)
         ]},
         {"k": "union", "name": n("U"), "fields": [
             idl.F(1, "default", T("i32"), "x", I(1)),
-            idl.F(2, "default", T("string"), "y"),
+            idl.F(0, "default", T("string"), "y"),                          # id 0 likewise
         ]},
         {"k": "exception", "name": n("X"), "fields": [idl.F(1, "default", T("string"), "msg")]},
         {"k": "service", "name": n("Base"), "extends": None, "functions": [
